@@ -954,6 +954,26 @@ def run_session(inp):
             out[-1]["single"] = dt == "float32"
             if got[0] != "ok":
                 out[-1]["refused"] = True          # these kinds are only requested for non-degenerate forms
+            if got[0] == "ok":
+                # G2 on the representation's own answers: every element handed out by rep[word] (one-letter words included,
+                # "*"-separated names) is edited in place by the caller; the SAME representation object must be unchanged
+                rep = _rep_of(G, kind, dt)()
+                words = [[k] for k in range(rank)] + ([[0, rank - 1]] if rank > 1 else [])
+                for w in words:
+                    A = X.rep_word(rep, names, w)
+                    A = getattr(A, "matrix", A)          # hyperbolic representations wrap the matrix
+                    A = np.asarray(A) if not isinstance(A, np.ndarray) else A
+                    if A.flags.writeable:
+                        A *= 100
+                        A -= np.eye(rank, dtype=A.dtype)
+                        A @= A
+                got3 = _outcome(lambda: gens_of(rep, names))
+                compare(si, o, kind + " after in-place edits of rep[word]", got3, ref,
+                        clauses=kind if kind in ("geom", "diag", "hyp") else "other")
+                out[-1]["single"] = dt == "float32"
+                got4 = _outcome(lambda: [np.asarray(getattr(X.rep_word(rep, names, [k]), "matrix", X.rep_word(rep, names, [k])), dtype=complex).real.astype(float)
+                                         if kind != "hyp" else gens_of(rep, names)[k] for k in range(rank)])
+                compare(si, o, kind + " rep[generator] after in-place edits", got4, ref)
             if st["scribble"] and got[0] == "ok":
                 # the caller overwrites what it was handed: a second request must not see that
                 rep = _rep_of(G, kind, dt)()
